@@ -36,7 +36,8 @@ enum LK {
 #[derive(Clone, Debug)]
 enum Val {
     Leaf(LK),
-    Node { takes: bool, is_map: bool, items: Vec<Val> },
+    /// `variant`: an enum variant with data (harness-only marker for the failure classifier; not encoded)
+    Node { variant: bool, is_map: bool, items: Vec<Val> },
     Strong { k: u8, tid: u32, p: usize },
     Weak { k: u8, tid: u32, p: usize },
 }
@@ -108,7 +109,7 @@ impl Tid for Option<i64> {
 }
 impl<T: ToVal> ToVal for Vec<T> {
     fn to_val(&self, c: &mut Conv) -> Val {
-        Val::Node { takes: true, is_map: false, items: self.iter().map(|x| x.to_val(c)).collect() }
+        Val::Node { variant: false, is_map: false, items: self.iter().map(|x| x.to_val(c)).collect() }
     }
 }
 impl Tid for Vec<i64> {
@@ -116,7 +117,7 @@ impl Tid for Vec<i64> {
 }
 impl<T: ToVal> ToVal for BTreeMap<String, T> {
     fn to_val(&self, c: &mut Conv) -> Val {
-        Val::Node { takes: true, is_map: true, items: self.values().map(|x| x.to_val(c)).collect() }
+        Val::Node { variant: false, is_map: true, items: self.values().map(|x| x.to_val(c)).collect() }
     }
 }
 impl<T: ToVal + Tid> ToVal for RcAnchor<T> {
@@ -128,6 +129,9 @@ impl<T: ToVal + Tid> ToVal for RcAnchor<T> {
 }
 impl<T: Tid> Tid for RcAnchor<T> {
     const TID: u32 = 100 + T::TID;
+}
+impl<T: Tid> Tid for ArcAnchor<T> {
+    const TID: u32 = 200 + T::TID;
 }
 impl<T: ToVal + Tid> ToVal for ArcAnchor<T> {
     fn to_val(&self, c: &mut Conv) -> Val {
@@ -240,7 +244,7 @@ impl<'a> Fields<'a> {
         }
     }
     fn done(self) -> Val {
-        Val::Node { takes: true, is_map: true, items: self.items }
+        Val::Node { variant: false, is_map: true, items: self.items }
     }
 }
 
@@ -251,6 +255,7 @@ impl<'a> Fields<'a> {
 enum EN {
     Unit,
     New(i64),
+    Tup(i64, i64),
     St { a: i64 },
 }
 impl Tid for EN {
@@ -258,11 +263,12 @@ impl Tid for EN {
 }
 impl ToVal for EN {
     fn to_val(&self, c: &mut Conv) -> Val {
-        let variant = |inner: Val| Val::Node { takes: false, is_map: true, items: vec![inner] };
+        let variant = |inner: Val| Val::Node { variant: true, is_map: true, items: vec![inner] };
         match self {
             EN::Unit => Val::Leaf(LK::Word),
             EN::New(n) => variant(n.to_val(c)),
-            EN::St { a } => variant(Val::Node { takes: false, is_map: true, items: vec![a.to_val(c)] }),
+            EN::Tup(a, b) => variant(Val::Node { variant: false, is_map: false, items: vec![a.to_val(c), b.to_val(c)] }),
+            EN::St { a } => variant(Val::Node { variant: false, is_map: true, items: vec![a.to_val(c)] }),
         }
     }
 }
@@ -295,6 +301,19 @@ impl ToVal for AN {
     }
 }
 
+/// a weak pointer in a mapping-value position
+#[derive(Serialize, Deserialize)]
+struct WField {
+    w: RcWeakAnchor<RN>,
+}
+impl ToVal for WField {
+    fn to_val(&self, c: &mut Conv) -> Val {
+        let mut f = Fields::new(c);
+        f.always(&self.w);
+        f.done()
+    }
+}
+
 /// Rc world
 #[derive(Serialize, Deserialize, Default)]
 struct RN {
@@ -310,7 +329,7 @@ struct RN {
     #[serde(default, skip_serializing_if = "Vec::is_empty")]
     weak: Vec<RcWeakAnchor<RN>>,
     #[serde(default, skip_serializing_if = "Option::is_none")]
-    wfield: Option<RcWeakAnchor<RN>>,
+    wfield: Option<WField>,
     #[serde(default, skip_serializing_if = "Vec::is_empty")]
     ints: Vec<RcAnchor<i64>>,
     #[serde(default, skip_serializing_if = "Vec::is_empty")]
@@ -327,6 +346,8 @@ struct RN {
     vecs: Vec<RcAnchor<Vec<i64>>>,
     #[serde(default, skip_serializing_if = "Vec::is_empty")]
     nest: Vec<RcAnchor<RcAnchor<i64>>>,
+    #[serde(default, skip_serializing_if = "Vec::is_empty")]
+    nestmix: Vec<RcAnchor<ArcAnchor<i64>>>,
     #[serde(default, skip_serializing_if = "Vec::is_empty")]
     arcs: Vec<ArcAnchor<AN>>,
     #[serde(default, skip_serializing_if = "Vec::is_empty")]
@@ -359,6 +380,7 @@ impl ToVal for RN {
         f.opt(&self.vtwo);
         f.vec(&self.vecs);
         f.vec(&self.nest);
+        f.vec(&self.nestmix);
         f.vec(&self.arcs);
         f.vec(&self.aweak);
         f.vec(&self.plain);
@@ -466,9 +488,8 @@ fn enc_val(v: &Val, out: &mut Vec<String>) {
             out.push("L".into());
             enc_lk(k, out);
         }
-        Val::Node { takes, is_map, items } => {
+        Val::Node { is_map, items, .. } => {
             out.push("N".into());
-            out.push(b(*takes).into());
             out.push(b(*is_map).into());
             out.push(items.len().to_string());
             for i in items {
@@ -642,9 +663,12 @@ fn err_kind(msg: &str) -> &'static str {
 
 #[derive(Default, Debug)]
 struct Feat {
-    /// a cell whose payload root does not take the pending anchor (null, block scalar, enum variant
-    /// layout, wrapper directly inside a wrapper)
+    /// a cell whose payload is a block scalar: the one serializer path that still ignores the pending anchor
     leak: bool,
+    /// a cell whose payload is `null` or an enum variant with data (formerly lost their anchor)
+    null_or_variant_payload: bool,
+    /// a wrapper directly inside a wrapper (one YAML node, one id)
+    nested: bool,
     dangling: bool,
     dangling_map_value: bool,
     /// a live weak edge met before its strong owner (or whose owner is not part of the graph)
@@ -664,8 +688,8 @@ struct Feat {
 
 fn takes_root(v: &Val) -> bool {
     match v {
-        Val::Leaf(LK::Int(_)) | Val::Leaf(LK::Word) => true,
-        Val::Node { takes, .. } => *takes,
+        Val::Leaf(LK::Block) => false,
+        Val::Leaf(_) | Val::Node { .. } => true,
         _ => false,
     }
 }
@@ -701,10 +725,13 @@ fn analyse(g: &Graph) -> Feat {
         a.open.push(p);
         let g = a.g;
         if let Some((_, payload)) = g.heap.iter().find(|c| c.0 == p) {
-            if !takes_root(payload) {
-                a.f.leak = true;
+            match payload {
+                Val::Leaf(LK::Block) => a.f.leak = true,
+                Val::Leaf(LK::Null) | Val::Node { variant: true, .. } => a.f.null_or_variant_payload = true,
+                Val::Strong { .. } | Val::Weak { .. } => a.f.nested = true,
+                _ => {}
             }
-            if seq_elem && matches!(payload, Val::Node { is_map: false, takes: true, .. }) {
+            if seq_elem && matches!(payload, Val::Node { is_map: false, variant: false, .. }) {
                 a.f.seq_in_seq = true;
             }
             go(a, payload, false, false);
@@ -747,7 +774,12 @@ struct Cfg {
     weak_first: bool,
     dangling: bool,
     dangling_field: bool,
-    leak: bool,
+    /// payloads `None` / enum variants with data
+    nullvar: bool,
+    /// multi-line string payloads (block scalars)
+    block: bool,
+    /// wrappers directly inside wrappers
+    nest: bool,
     arcs: bool,
     self_weak: bool,
     outside: bool,
@@ -805,16 +837,20 @@ impl<'a> Gen<'a> {
         let ints: Vec<Rc<i64>> = (0..2).map(|_| Rc::new(self.id())).collect();
         let strs: Vec<Rc<String>> = vec![
             Rc::new("wa".to_string()),
-            Rc::new(if cfg.leak { "bb\nbb\n".to_string() } else { "wb".to_string() }),
+            Rc::new(if cfg.block { "bb\nbb\n".to_string() } else { "wb".to_string() }),
         ];
-        let opts: Vec<Rc<Option<i64>>> = vec![Rc::new(Some(self.id())), Rc::new(if cfg.leak { None } else { Some(self.id()) })];
-        let enums: Vec<Rc<EN>> = if cfg.leak {
-            vec![Rc::new(EN::Unit), Rc::new(EN::New(self.id())), Rc::new(EN::St { a: self.id() })]
+        let opts: Vec<Rc<Option<i64>>> = vec![Rc::new(Some(self.id())), Rc::new(if cfg.nullvar { None } else { Some(self.id()) })];
+        let enums: Vec<Rc<EN>> = if cfg.nullvar {
+            vec![Rc::new(EN::Unit), Rc::new(EN::New(self.id())), Rc::new(EN::Tup(self.id(), self.id())), Rc::new(EN::St { a: self.id() })]
         } else {
             vec![Rc::new(EN::Unit)]
         };
         let vecs: Vec<Rc<Vec<i64>>> = vec![Rc::new(vec![]), Rc::new(vec![self.id(), self.id()])];
-        let nests: Vec<Rc<RcAnchor<i64>>> = if cfg.leak { vec![Rc::new(RcAnchor(ints[0].clone())), Rc::new(RcAnchor(Rc::new(self.id())))] } else { vec![] };
+        let nests: Vec<Rc<RcAnchor<i64>>> = if cfg.nest { vec![Rc::new(RcAnchor(ints[0].clone())), Rc::new(RcAnchor(Rc::new(self.id())))] } else { vec![] };
+        let aints: Vec<Arc<i64>> = (0..2).map(|_| Arc::new(self.id())).collect();
+        let nestmix: Vec<Rc<ArcAnchor<i64>>> = if cfg.nest {
+            vec![Rc::new(ArcAnchor(aints[0].clone())), Rc::new(ArcAnchor(aints[0].clone())), Rc::new(ArcAnchor(aints[1].clone()))]
+        } else { vec![] };
         let n = 1 + self.rng.below(5);
         let mut pool: Vec<Rc<RN>> = vec![];
         for i in 0..=n {
@@ -852,6 +888,9 @@ impl<'a> Gen<'a> {
             if self.rng.chance(1, 3) {
                 node.nest = self.picks(&nests, 2).into_iter().map(RcAnchor).collect();
             }
+            if self.rng.chance(1, 3) {
+                node.nestmix = self.picks(&nestmix, 2).into_iter().map(RcAnchor).collect();
+            }
             if self.rng.chance(1, 2) {
                 node.arcs = self.picks(&arcs, 2).into_iter().map(ArcAnchor).collect();
             }
@@ -875,9 +914,9 @@ impl<'a> Gen<'a> {
             }
             if cfg.dangling_field && self.rng.chance(1, 3) {
                 let tmp = Rc::new(RN::default());
-                node.wfield = Some(RcWeakAnchor(Rc::downgrade(&tmp)));
+                node.wfield = Some(WField { w: RcWeakAnchor(Rc::downgrade(&tmp)) });
             } else if cfg.weak && self.rng.chance(1, 6) {
-                node.wfield = self.picks(&pool, 1).iter().map(|a| RcWeakAnchor(Rc::downgrade(a))).next();
+                node.wfield = self.picks(&pool, 1).iter().map(|a| WField { w: RcWeakAnchor(Rc::downgrade(a)) }).next();
             }
             if self.rng.chance(1, 5) && !pool.is_empty() {
                 // a plain (non-wrapper) nested struct holding more shared pointers
@@ -979,7 +1018,7 @@ impl<'a> Gen<'a> {
 
 /// break the weak cycles' owners so that nothing leaks between cases (strong edges form a DAG, nothing to do)
 fn profile_name(p: usize) -> &'static str {
-    ["clean_dag", "weak_after", "weak_any_order", "dangling_seq", "dangling_field", "leaky_payload", "self_weak", "outside_owner", "rec_back", "rec_forward", "rec_dangling", "rec_strong_cycle", "mixed", "seq_in_seq"][p]
+    ["clean_dag", "weak_after", "weak_any_order", "dangling_seq", "dangling_field", "null_or_variant_payload", "self_weak", "outside_owner", "rec_back", "rec_forward", "rec_dangling", "rec_strong_cycle", "mixed", "seq_in_seq", "block_payload", "nested_wrappers"][p]
 }
 
 fn gen_case(rng: &mut Rng, profile: usize) -> (Top, Vec<Rc<RN>>, Vec<Arc<AN>>) {
@@ -992,10 +1031,12 @@ fn gen_case(rng: &mut Rng, profile: usize) -> (Top, Vec<Rc<RN>>, Vec<Arc<AN>>) {
         2 => { cfg.weak = true; cfg.weak_first = true; }
         3 => { cfg.weak = true; cfg.dangling = true; }
         4 => { cfg.dangling_field = true; }
-        5 => cfg.leak = true,
+        5 => cfg.nullvar = true,
+        14 => cfg.block = true,
+        15 => { cfg.nest = true; cfg.weak = true; }
         6 => { cfg.weak = true; cfg.self_weak = true; }
         7 => { cfg.weak = true; cfg.outside = true; }
-        12 => { cfg = Cfg { weak: true, weak_first: true, dangling: true, dangling_field: true, leak: true, arcs: true, self_weak: true, outside: true, seqseq: true }; }
+        12 => { cfg = Cfg { weak: true, weak_first: true, dangling: true, dangling_field: true, nullvar: true, block: true, nest: true, arcs: true, self_weak: true, outside: true, seqseq: true }; }
         13 => cfg.seqseq = true,
         _ => {}
     }
@@ -1008,7 +1049,7 @@ fn gen_case(rng: &mut Rng, profile: usize) -> (Top, Vec<Rc<RN>>, Vec<Arc<AN>>) {
         10 => g.rr_world(&mut top, false, true, false),
         11 => g.rr_world(&mut top, false, false, true),
         12 => { g.rr_world(&mut top, true, true, false); g.ar_world(&mut top, true); }
-        13 => {}
+        13 | 14 | 15 => {}
         _ => { if g.rng.chance(1, 4) { g.rr_world(&mut top, false, false, false); } }
     }
     top.fin = g.id();
@@ -1495,7 +1536,8 @@ fn generate(a: &Args) -> i32 {
     // ---- generated object graphs: ser / rt / oracle
     let per_profile = if a.thorough { 12000 } else { 1200 };
     let mut deadlock_checked = 0u32;
-    for profile in 0..14 {
+    let mut deadlock_seen = false;
+    for profile in 0..16 {
         for _ in 0..per_profile {
             let snap = rng.clone();
             let (top, _keep_rc, _keep_arc) = gen_case(&mut rng, profile);
@@ -1506,37 +1548,39 @@ fn generate(a: &Args) -> i32 {
             if f.shared { sink.count("graph.shared"); }
             if f.weak_live { sink.count("graph.weak_live"); }
             if f.dangling { sink.count("graph.dangling"); }
-            if f.leak { sink.count("graph.leaky_payload"); }
+            if f.leak { sink.count("graph.block_scalar_payload"); }
+            if f.null_or_variant_payload { sink.count("graph.null_or_variant_payload"); }
+            if f.nested { sink.count("graph.nested_wrappers"); }
             if f.weak_first { sink.count("graph.weak_before_strong"); }
             if f.rec_back { sink.count("graph.rec_back_edge"); }
             if f.cycle_nonrec { sink.count("graph.cycle_nonrec"); }
             if f.strong_cycle { sink.count("graph.strong_cycle"); }
             if f.seq_in_seq { sink.count("graph.seq_in_seq"); }
             if f.deadlock {
-                // `ArcRecursive::serialize` would lock a mutex this thread already holds: the call never
-                // returns.  Confirm a few such cases on a sacrificial thread (it stays blocked), skip the rest.
+                // A strong `ArcRecursive` edge to a cell whose payload is being written further up the
+                // stack: before the repair `to_string` never returned.  The first such cases run on a
+                // sacrificial thread with a time-out so that a regression is reported instead of hanging.
                 sink.count("graph.arc_recursive_relock");
-                if deadlock_checked < 3 {
+                if deadlock_seen {
+                    continue;
+                }
+                if deadlock_checked < 10 {
                     deadlock_checked += 1;
-                    let (tx, rx) = std::sync::mpsc::channel::<String>();
+                    let (tx, rx) = std::sync::mpsc::channel::<()>();
                     let mut r2 = snap.clone();
                     std::thread::spawn(move || {
                         let (top2, _k1, _k2) = gen_case(&mut r2, profile);
-                        let ans = match catch(|| serde_saphyr::to_string(&top2)) {
-                            Err(_) => "panic".to_string(),
-                            Ok(Err(_)) => "sererr".to_string(),
-                            Ok(Ok(y)) => lex(&y),
-                        };
-                        let _ = tx.send(ans);
+                        let _ = catch(|| serde_saphyr::to_string(&top2));
+                        let _ = tx.send(());
                     });
-                    let ans = rx.recv_timeout(std::time::Duration::from_millis(1500)).unwrap_or_else(|_| "deadlock".to_string());
-                    sink.case(&format!("anchors ser {enc}"), &ans);
-                    if ans == "deadlock" {
+                    if rx.recv_timeout(std::time::Duration::from_millis(3000)).is_err() {
+                        deadlock_seen = true;
+                        sink.case(&format!("anchors ser {enc}"), "deadlock");
                         oracle.fail("C14-arc-recursive-serialize-deadlock", "to_string never returns: ArcRecursive::serialize locks a mutex that an enclosing ArcRecursive/ArcRecursion serialize call of the same thread still holds",
-                            &enc, "no return within 1.5 s (thread abandoned)", "YAML text");
+                            &enc, "no return within 3 s (thread abandoned)", "YAML text");
+                        continue;
                     }
                 }
-                continue;
             }
             sink.count(&format!("graph.cells.{}", g.heap.len().min(12)));
 
@@ -1549,7 +1593,27 @@ fn generate(a: &Args) -> i32 {
             };
             sink.case(&format!("anchors ser {enc}"), &ser_ans);
             let Some(yaml) = yaml else {
-                oracle.fail(if ser_ans == "panic" { "C14-ser-panic" } else { "C14-ser-error" }, "serialization of an object graph failed", &enc, &ser_ans, "YAML text");
+                if ser_ans == "sererr" && f.leak {
+                    // the anchor leaked by a block scalar reached a wrapper whose pointer is already anchored
+                    sink.count("oracle.fail.C14-anchor-not-on-block-scalar");
+                    let c = oracle_seen.entry("C14-anchor-not-on-block-scalar".to_string()).or_insert(0);
+                    *c += 1;
+                    if *c <= 3 {
+                        oracle.fail("C14-anchor-not-on-block-scalar", "serialization refused: the anchor a block scalar did not take reached an already anchored wrapper", &enc, &ser_ans, "YAML text");
+                    }
+                } else if ser_ans == "sererr" && f.nested {
+                    // a wrapper directly inside a wrapper whose pointer is already anchored: not expressible
+                    sink.count("oracle.fail.C14-nested-wrapper-limits");
+                    let c = oracle_seen.entry("C14-nested-wrapper-limits".to_string()).or_insert(0);
+                    *c += 1;
+                    if *c <= 3 {
+                        oracle.fail("C14-nested-wrapper-limits", "serialization refused: wrapper directly inside a wrapper, inner pointer already anchored", &enc, &ser_ans, "YAML text");
+                    }
+                    // the model must predict the refusal
+                    sink.case(&format!("anchors rt {enc}"), "sererr");
+                } else {
+                    oracle.fail(if ser_ans == "panic" { "C14-ser-panic" } else { "C14-ser-error" }, "serialization of an object graph failed", &enc, &ser_ans, "YAML text");
+                }
                 continue;
             };
             // custom anchor generator with the same names: exercises `write_anchor_name`'s `id - 1` index
@@ -1572,9 +1636,9 @@ fn generate(a: &Args) -> i32 {
                 Ok(Err(e)) => format!("err {}", err_kind(&e.to_string())),
                 Ok(Ok(t2)) => format!("ok {}", canon(&graph_of(t2))),
             };
-            // the model covers the round trip when every payload takes its anchor and no dangling weak
-            // sits in a mapping-value position (there the text itself is damaged: `key:null`)
-            if !f.leak && !f.dangling_map_value && !f.seq_in_seq && !f.strong_cycle {
+            // the model covers the round trip unless an anchor leaks from a block scalar onto another node
+            // (then scalar typing decides the outcome) or the value's type is infinite (strong cycle)
+            if !f.leak && !f.strong_cycle {
                 sink.case(&format!("anchors rt {enc}"), &rt_ans);
                 sink.count(&format!("rt.{}", rt_ans.split(' ').take(if rt_ans.starts_with("err") { 2 } else { 1 }).collect::<Vec<_>>().join("_")));
             }
@@ -1584,22 +1648,28 @@ fn generate(a: &Args) -> i32 {
                     distinct.insert(expected.clone());
                 }
             } else {
+                // limitations that are still there first; the ids of repaired defects are only used when
+                // none of those can explain the failure, so a regression is reported as a violation
                 let id = if rt_ans == "panic" {
                     "C14-de-panic"
-                } else if f.seq_in_seq {
-                    "C14-anchored-seq-in-seq-layout"
-                } else if f.dangling_map_value {
-                    "C14-dangling-weak-mapvalue-layout"
                 } else if f.leak {
-                    "C14-anchor-not-on-payload"
-                } else if f.dangling {
-                    "C14-dangling-weak-null-rejected"
+                    "C14-anchor-not-on-block-scalar"
+                } else if f.nested {
+                    "C14-nested-wrapper-limits"
                 } else if f.strong_cycle {
                     "C14-strong-cycle"
                 } else if f.cycle_nonrec {
                     "C14-weak-cycle-needs-recursive-wrappers"
                 } else if f.weak_first {
                     "C14-weak-before-strong"
+                } else if f.dangling_map_value && rt_ans == "err shape" {
+                    "C14-dangling-weak-mapvalue-layout"
+                } else if f.dangling && (rt_ans == "err weak_no_anchor" || rt_ans == "err weak_unknown") {
+                    "C14-dangling-weak-null-rejected"
+                } else if f.seq_in_seq && rt_ans == "err shape" {
+                    "C14-anchored-seq-in-seq-layout"
+                } else if f.null_or_variant_payload {
+                    "C14-anchor-not-on-payload"
                 } else {
                     "C14-roundtrip-mismatch"
                 };
@@ -1634,7 +1704,7 @@ fn generate(a: &Args) -> i32 {
         sink.count("witness.checked");
         let good = matches!(&r, Ok(Ok((_, Ok((a, b, c, true))))) if a == "line1\nline2\n" && b == "other" && c == a);
         if !good {
-            oracle.fail("C14-anchor-not-on-payload", "witness: a shared multi-line String (block scalar) loses its anchor to the next plain field",
+            oracle.fail("C14-anchor-not-on-block-scalar", "witness: a shared multi-line String (block scalar) loses its anchor to the next plain field",
                 "WT { x: RcAnchor(p), z: \"other\", w: RcAnchor(p) } with *p == \"line1\\nline2\\n\"", &format!("{:?}", r.map(|r| r.map(|(y, v)| (y, v.map_err(|e| err_kind(&e.to_string())))).map_err(|e| e.to_string()))), "(p, other, p, ptr_eq = true)");
         }
         #[derive(Serialize, Deserialize, Debug)]
@@ -1660,6 +1730,74 @@ fn generate(a: &Args) -> i32 {
             Ok(Ok((_, Ok(true)))) => {}
             other => oracle.fail("C14-weak-before-strong", "witness: {w: weak p, s: strong p}",
                 "WB", &format!("{:?}", other.map(|r| r.map(|(y, v)| (y, v.map_err(|e| err_kind(&e.to_string())))).map_err(|e| e.to_string()))), "weak upgrades to s"),
+        }
+    }
+
+    // ---- witnesses of the repaired defects
+    {
+        #[derive(Serialize, Deserialize, Debug)]
+        struct WE { x: RcAnchor<EN>, l: Vec<RcAnchor<EN>>, w: RcAnchor<EN> }
+        for e in [EN::New(3), EN::Tup(1, 2), EN::St { a: 4 }] {
+            let p = Rc::new(e);
+            let q = Rc::new(EN::New(9));
+            let v = WE { x: RcAnchor(p.clone()), l: vec![RcAnchor(q.clone()), RcAnchor(p.clone()), RcAnchor(q)], w: RcAnchor(p) };
+            let r = catch(|| serde_saphyr::to_string(&v).map(|y| (y.clone(), serde_saphyr::from_str::<WE>(&y).map(|r|
+                (Rc::ptr_eq(&r.x.0, &r.w.0), Rc::ptr_eq(&r.x.0, &r.l[1].0), Rc::ptr_eq(&r.l[0].0, &r.l[2].0), !Rc::ptr_eq(&r.x.0, &r.l[0].0), format!("{:?}", r.x.0) == format!("{:?}", v.x.0))))));
+            sink.count("witness.checked");
+            match r {
+                Ok(Ok((_, Ok((true, true, true, true, true))))) => {}
+                other => oracle.fail("C14-anchor-not-on-payload", "witness: shared enum variant with data, as a mapping value and as a sequence element",
+                    "WE", &format!("{:?}", other.map(|r| r.map(|(y, v)| (y, v.map_err(|e| err_kind(&e.to_string())))).map_err(|e| e.to_string()))), "all sharing preserved, value equal"),
+            }
+        }
+        #[derive(Serialize, Deserialize, Debug)]
+        struct WQ { a: Vec<RcAnchor<Vec<i64>>> }
+        let p = Rc::new(vec![1i64, 2]);
+        let e = Rc::new(Vec::<i64>::new());
+        let v = WQ { a: vec![RcAnchor(p.clone()), RcAnchor(e.clone()), RcAnchor(p), RcAnchor(e)] };
+        let r = catch(|| serde_saphyr::to_string(&v).map(|y| (y.clone(), serde_saphyr::from_str::<WQ>(&y).map(|r|
+            (Rc::ptr_eq(&r.a[0].0, &r.a[2].0), Rc::ptr_eq(&r.a[1].0, &r.a[3].0), *r.a[0].0 == vec![1, 2], r.a[1].0.is_empty())))));
+        sink.count("witness.checked");
+        match r {
+            Ok(Ok((_, Ok((true, true, true, true))))) => {}
+            other => oracle.fail("C14-anchored-seq-in-seq-layout", "witness: shared sequences as elements of a sequence", "WQ",
+                &format!("{:?}", other.map(|r| r.map(|(y, v)| (y, v.map_err(|e| err_kind(&e.to_string())))).map_err(|e| e.to_string()))), "sharing and values preserved"),
+        }
+        #[derive(Serialize, Deserialize, Debug)]
+        struct WV2 { v: i64 }
+        #[derive(Serialize, Deserialize)]
+        struct WF { s: RcAnchor<WV2>, d: RcWeakAnchor<WV2>, n: i64 }
+        let owner = Rc::new(WV2 { v: 7 });
+        let dang = { let t = Rc::new(WV2 { v: 9 }); Rc::downgrade(&t) };
+        let v = WF { s: RcAnchor(owner), d: RcWeakAnchor(dang), n: 5 };
+        let r = catch(|| serde_saphyr::to_string(&v).map(|y| (y.clone(), serde_saphyr::from_str::<WF>(&y).map(|r| (r.s.v, r.d.is_dangling(), r.n)))));
+        sink.count("witness.checked");
+        match r {
+            Ok(Ok((_, Ok((7, true, 5))))) => {}
+            other => oracle.fail("C14-dangling-weak-mapvalue-layout", "witness: a dangling weak as a struct field", "WF",
+                &format!("{:?}", other.map(|r| r.map(|(y, v)| (y, v.map_err(|e| err_kind(&e.to_string())))).map_err(|e| e.to_string()))), "(7, dangling, 5)"),
+        }
+        // the ArcRecursive re-lock graph: strong c0 -> c2 <- c1, weak c2 ~> c1, serialize [c0, c1]
+        let (tx, rx) = std::sync::mpsc::channel::<String>();
+        std::thread::spawn(move || {
+            let c: Vec<Arc<Mutex<Option<AR>>>> = (0..3).map(|_| Arc::new(Mutex::new(None))).collect();
+            *c[0].lock().unwrap() = Some(AR { id: 1, bfirst: vec![], kids: vec![ArcRecursive(c[2].clone())], back: vec![] });
+            *c[1].lock().unwrap() = Some(AR { id: 2, bfirst: vec![], kids: vec![ArcRecursive(c[2].clone())], back: vec![] });
+            *c[2].lock().unwrap() = Some(AR { id: 3, bfirst: vec![], kids: vec![], back: vec![ArcRecursion(Arc::downgrade(&c[1]))] });
+            let top = vec![ArcRecursive(c[0].clone()), ArcRecursive(c[1].clone())];
+            // (reading it back is refused by the documented weak-before-strong limitation: c1 is defined
+            // at the weak site)
+            let ans = match catch(|| serde_saphyr::to_string(&top)) {
+                Ok(Ok(y)) if lex(&y) == "-,D1,K,I1,K,-,D2,K,I3,K,-,D3,K,I2,K,-,A2,-,A3" => "ok".to_string(),
+                other => format!("{:?}", other.map(|r| r.map_err(|e| e.to_string()))),
+            };
+            let _ = tx.send(ans);
+        });
+        sink.count("witness.checked");
+        match rx.recv_timeout(std::time::Duration::from_millis(3000)) {
+            Ok(a) if a == "ok" => {}
+            Ok(a) => oracle.fail("C14-arc-recursive-serialize-deadlock", "witness: ArcRecursive DAG with a weak edge that defines a cell below a locked one", "[c0, c1]", &a, "- &a1 {id: 1, kids: [&a2 {id: 3, back: [&a3 {id: 2, kids: [*a2]}]}]}, - *a3"),
+            Err(_) => oracle.fail("C14-arc-recursive-serialize-deadlock", "witness: to_string never returns (mutex re-locked by the same thread)", "[c0, c1]", "no return within 3 s (thread abandoned)", "YAML text"),
         }
     }
 
@@ -1800,7 +1938,7 @@ fn generate(a: &Args) -> i32 {
         "distinct_nontrivial": nontrivial,
         "oracle_records": oracle_n,
         "oracle_failure_classes": oracle_seen,
-        "rule": "generated object graphs over a fixed family of derive types (Rc world RN with Vec/Option/BTreeMap/nested-struct fields of RcAnchor, weak fields, scalar/string/Option/enum/Vec payloads, wrapper-in-wrapper; Arc world AN nested in it; recursive worlds RR/AR with weak back edges), 13 profiles (clean DAG, weak after/any order, dangling in sequence / in field, payloads that do not take the anchor, weak self-cycle, owner outside the graph, recursive back / forward / dangling / strong cycle, mixed); each graph: op `ser` (lexed serializer text vs model token stream), op `rt` (rebuilt pointer-equality classes or error class vs model; only graphs whose payloads all take their anchor), ORACLE original vs rebuilt classes; op `de`: random anchor/alias placements (incl. unanchored wrappers inside anchored ones, aliases to open / unknown anchors, inline nodes at weak positions) over fixed Rc/Arc struct families with a probe leaf that snapshots the anchor store through the hook. Non-trivial = distinct pointer-equality class patterns with at least one shared node that round-trip.",
+        "rule": "generated object graphs over a fixed family of derive types (Rc world RN with Vec/Option/BTreeMap/nested-struct fields of RcAnchor, weak fields in sequences and in a struct field, scalar/string/Option/enum (newtype, tuple, struct variants)/Vec payloads, wrapper-in-wrapper of the same and of mixed kinds; Arc world AN nested in it; recursive worlds RR/AR with weak back edges), 16 profiles (clean DAG, weak after/any order, dangling in sequence / in field, None and enum-variant payloads, weak self-cycle, owner outside the graph, recursive back / forward / dangling / strong cycle, mixed, sequence in sequence, block-scalar payloads, nested wrappers); each graph: op `ser` (lexed serializer text vs model token stream), op `rt` (rebuilt pointer-equality classes or error class vs model; all graphs except those where a block scalar leaks its anchor or the type is infinite), ORACLE original vs rebuilt classes, failures classified by still-known limitations first so that a regression of a repaired defect is reported under its (fixed) id; fixed witnesses of every repaired defect incl. the ArcRecursive re-lock graph on a sacrificial thread; op `de`: random anchor/alias placements (incl. unanchored wrappers inside anchored ones, aliases to open / unknown anchors, null and inline nodes at weak positions) over fixed Rc/Arc struct families with a probe leaf that snapshots the anchor store through the hook. Non-trivial = distinct pointer-equality class patterns with at least one shared node that round-trip.",
     }));
     0
 }
